@@ -15,6 +15,7 @@
 #include <setjmp.h>
 #include <signal.h>
 #include <sys/wait.h>
+#include <sys/resource.h>
 #include <unistd.h>
 
 static jmp_buf err_jb;
@@ -317,12 +318,38 @@ static int build_case (MIR_context_t ctx, char **lines, int nlines) {
   return 0;
 }
 
+/* MIR_output into a growing buffer with a hard cap: a writer that runs away (e.g. off the end of an
+   `expr` item) must not fill memory or disk */
+#define OUTPUT_CAP (32u << 20)
+struct capbuf {
+  char *p;
+  size_t len, cap;
+};
+static ssize_t cap_write (void *c, const char *buf, size_t n) {
+  struct capbuf *b = c;
+  if (b->len + n > OUTPUT_CAP) {
+    fflush (stdout);
+    fputs ("\ncrash output-cap\n", stdout);
+    fflush (stdout);
+    _exit (0);
+  }
+  if (b->len + n + 1 > b->cap) {
+    b->cap = 2 * (b->len + n + 1);
+    b->p = realloc (b->p, b->cap);
+  }
+  memcpy (b->p + b->len, buf, n);
+  b->len += n;
+  b->p[b->len] = 0;
+  return (ssize_t) n;
+}
 static char *output_ctx (MIR_context_t ctx, size_t *len) {
-  char *buf = NULL;
-  FILE *f = open_memstream (&buf, len);
+  struct capbuf b = {calloc (1, 1), 0, 1};
+  cookie_io_functions_t io = {NULL, cap_write, NULL, NULL};
+  FILE *f = fopencookie (&b, "w", io);
   MIR_output (ctx, f);
   fclose (f);
-  return buf;
+  *len = b.len;
+  return b.p;
 }
 
 static void put_blob (const char *tag, const char *b, size_t len) {
@@ -451,7 +478,11 @@ static void in_child (void (*fn) (void *), void *arg) {
   fflush (stdout);
   pid_t pid = fork ();
   if (pid == 0) {
+    struct rlimit rl = {30, 35};
     alarm (20);
+    setrlimit (RLIMIT_CPU, &rl);
+    rl.rlim_cur = rl.rlim_max = 0;
+    setrlimit (RLIMIT_CORE, &rl);
     fn (arg);
     fflush (stdout);
     _exit (0);
